@@ -113,11 +113,11 @@ PROPS = {
     },
     "C12": {
         "slices": ["C12"],
-        "relevant_diff": lambda part, op: part.startswith("DIFF cs-") or part.startswith("DIFF meta") or part.startswith("DIFF xmlenc"),
-        "assumptions": COMMON_ASSUME + ["x/net/html tokenizer and encoding/xml.RawToken are external: their output is an input of the model",
+        "relevant_diff": lambda part, op: part.startswith("DIFF cs-") or part.startswith("DIFF meta") or part.startswith("DIFF xmlenc") or part.startswith("DIFF xmlinst"),
+        "assumptions": COMMON_ASSUME + ["x/net/html tokenizer is external: its output is an input of the model; encoding/xml's first raw token is hand-modelled (Model/XmlTok.lean, name tables of go1.23.5) and compared with the library on every walk / cs xml op",
                                         "labels are token characters other than '&' (HTML character references are decoded by the tokenizer; DESIGN.md §9)"],
         "trusted_base": ["fromHTML prescan, fromMetaElement, xmlEncoding, FromBOM hand-modelled; tie: cs html/xml ops fed with the real token stream, meta/xmlenc ops on raw strings, decl ops through Detect"],
-        "partial": ["the byte -> token step (x/net/html, encoding/xml) is a parameter of the theorems"],
+        "partial": ["the HTML byte -> token step (x/net/html) is a parameter of the theorems; the XML step is modelled (Props/C12_Xml.lean)"],
     },
     "C04": {
         "slices": ["C04", "C09", "C05"],
